@@ -32,4 +32,8 @@ def main():
         core.log(blog)
         rc = 1
     core.ergpath()
+    ok, blog, _ = core.erg_binary()
+    if not ok:
+        core.log(blog)
+        rc = 1
     return rc
